@@ -43,6 +43,15 @@ def _fro(a):
     return float(np.sqrt(np.sum(_np(a) ** 2)))
 
 
+def _le(v, tol):
+    """NaN/inf-safe  v <= tol  (None, NaN and inf are never small)"""
+    return v is not None and bool(np.isfinite(v)) and v <= tol
+
+
+def _finite(*arrs):
+    return all(a is not None and np.all(np.isfinite(_np(a))) for a in arrs)
+
+
 def steps_valid(N, steps):
     for op, mu in steps:
         if op == "orth" and not (-N <= mu < N):
@@ -226,10 +235,12 @@ class Prop:
                 return False, where + "result is not a well-formed network (%s)" % type(e).__name__
             if list(y.shape) != list(x.shape):
                 return False, where + "shape changed to %s" % (list(y.shape),)
-            if _fro(y - x) > TOL * nx + 1e-12:
+            if not _le(_fro(y - x), TOL * nx + 1e-12):
                 return False, where + "tensor changed, |diff| = %g (|x| = %g)" % (_fro(y - x), nx)
             cores = [m["core"] for m in cur["modes"]]
             Us = [m["U"] for m in cur["modes"]]
+            if not _finite(*cores) or not _finite(*[U for U in Us if U is not None]):
+                return False, where + "cores / factors contain non-finite entries"
             if op == "orth":
                 m = mu % N
                 for n in range(N):
@@ -237,21 +248,21 @@ class Prop:
                         return False, where + "core %d was not converted to a TT core" % n
                     if n < m:
                         e = _left_err(cores[n])
-                        if e > TOL:
+                        if not _le(e, TOL):
                             return False, where + "core %d left unfolding not orthonormal (%g)" % (n, e)
                     if n > m:
                         e = _right_err(cores[n])
-                        if e > TOL:
+                        if not _le(e, TOL):
                             return False, where + "core %d right unfolding not orthonormal (%g)" % (n, e)
                     if n != m and Us[n] is not None:
                         e = _gram_err(_np(Us[n]))
-                        if e > TOL:
+                        if not _le(e, TOL):
                             return False, where + "factor %d columns not orthonormal (%g)" % (n, e)
                 # norm of the tensor = norm of core mu combined with its own factor
                 c = _np(cores[m])
                 if Us[m] is not None:
                     c = np.einsum("pjq,ij->piq", c, _np(Us[m]))
-                if abs(_fro(c) - nx) > TOL * nx + 1e-12:
+                if not _le(abs(_fro(c) - nx), TOL * nx + 1e-12):
                     return False, where + "|core mu with its factor| = %g but |tensor| = %g" % (_fro(c), nx)
             else:
                 nb = mu + 1 if op == "left" else mu - 1
@@ -260,30 +271,30 @@ class Prop:
                 if cm.ndim != 3 or cn.ndim != 3 or pc.ndim != 3:
                     return False, where + "CP core was not converted to a TT core"
                 e = _left_err(cores[mu]) if op == "left" else _right_err(cores[mu])
-                if e > TOL:
+                if not _le(e, TOL):
                     return False, where + "core %d %s unfolding not orthonormal (%g)" % (mu, op, e)
                 if Us[mu] is not None:
                     e = _gram_err(_np(Us[mu]))
-                    if e > TOL:
+                    if not _le(e, TOL):
                         return False, where + "factor %d columns not orthonormal (%g)" % (mu, e)
                 R = _np(snap["ret"])
-                if R.ndim != 2:
-                    return False, where + "returned factor is not a matrix"
+                if R.ndim != 2 or not _finite(R):
+                    return False, where + "returned factor is not a finite matrix"
                 scale = max(1.0, float(np.max(np.abs(R))) if R.size else 1.0)
                 if op == "left":
                     # upper triangular, shape (new bond, old bond); new neighbour = R x_1 old neighbour
                     if R.shape != (cm.shape[2], pc.shape[0]):
                         return False, where + "returned factor has shape %s, bonds are %d -> %d" % (R.shape, pc.shape[0], cm.shape[2])
-                    if np.max(np.abs(R - np.triu(R)), initial=0.0) > TOL * scale:
+                    if not _le(float(np.max(np.abs(R - np.triu(R)), initial=0.0)), TOL * scale):
                         return False, where + "returned factor is not upper triangular"
                     want = (R @ pc.reshape(pc.shape[0], -1)).reshape((R.shape[0],) + pc.shape[1:])
                 else:
                     if R.shape != (pc.shape[2], cm.shape[0]):
                         return False, where + "returned factor has shape %s, bonds are %d -> %d" % (R.shape, pc.shape[2], cm.shape[0])
-                    if np.max(np.abs(R - np.tril(R)), initial=0.0) > TOL * scale:
+                    if not _le(float(np.max(np.abs(R - np.tril(R)), initial=0.0)), TOL * scale):
                         return False, where + "returned factor is not lower triangular"
                     want = (pc.reshape(-1, pc.shape[2]) @ R).reshape(pc.shape[:2] + (R.shape[1],))
-                if want.shape != cn.shape or np.max(np.abs(want - cn), initial=0.0) > TOL * max(1.0, float(np.max(np.abs(want), initial=0.0))):
+                if want.shape != cn.shape or not close(cn, want, TOL):
                     return False, where + "neighbouring core is not (old neighbour) x (returned factor)"
             prev = cur
         return True, ""
